@@ -490,7 +490,12 @@ def build(ctx, unit_name, only=None, probe=None):
     if getattr(tab, "GENERATED_SPEC", None) == "below_top":
         from . import btgen
         u.raw(btgen.BelowTopGen(ctx.tt).text(), "spec:generated:below_top")
+    if getattr(tab, "GENERATED_SPEC", None) == "eqv":
+        from . import eqvgen
+        u.raw(eqvgen.EqvGen(ctx.tt, ctx.specgen).text(), "spec:generated:eqv")
     u.raw(spec_text(unit_name), "spec:unit")
+    if hasattr(tab, "extra_spec"):
+        u.raw(tab.extra_spec(ctx), "spec:generated:unit")
     obligations = []
     # ast items: walker under its proved contract (external_body), the rest with real bodies
     splices, _obs = A.small_fn_splices(ctx, walker_external=True)
